@@ -212,6 +212,74 @@ theorem C05_eno3_y_2d_quadratic_any_dir (a f v : F2 K) (i j : ℤ) (hq3 : q.c3 =
   simp only [key]
   split_ifs <;> (simp only [Cubic1.eval, Cubic1.deriv, xc, hq3]; push_cast; ring)
 
+/-! 3D: the nodal flux varies along the axis of the kernel pair; the other two indices are fixed -/
+
+theorem C05_eno3_x_3d_cubic_same_dir (a f v : F3 K) (i j k : ℤ)
+    (hq : ∀ n, f i j n * v i j n = q.eval (xc h n))
+    (hdir : (-(v i j (k+1)) < v i j k ∧ -(v i j k) < v i j (k-1)) ∨ (¬ -(v i j (k+1)) < v i j k ∧ ¬ -(v i j k) < v i j (k-1))) :
+    (advection_flux_x_front_conservative_eno3_stencil_3d inv_dx a f v i j k - a i j k)
+      + (advection_flux_x_back_conservative_eno3_stencil_3d inv_dx a f v i j k - a i j k)
+      = inv_dx * (h * q.deriv (xc h k)) := by
+  have key : ∀ (c : K) n, c * f i j n * v i j n = c * q.eval (xc h n) := by intro c n; rw [mul_assoc, hq]
+  unfold advection_flux_x_front_conservative_eno3_stencil_3d advection_flux_x_back_conservative_eno3_stencil_3d
+  simp only [key]
+  rcases hdir with ⟨h1, h2⟩ | ⟨h1, h2⟩ <;> simp only [h1, h2, if_true, if_false] <;>
+    (simp only [Cubic1.eval, Cubic1.deriv, xc]; push_cast; ring)
+
+theorem C05_eno3_y_3d_cubic_same_dir (a f v : F3 K) (i j k : ℤ)
+    (hq : ∀ n, f i n k * v i n k = q.eval (xc h n))
+    (hdir : (-(v i (j+1) k) < v i j k ∧ -(v i (j-1) k) < v i j k) ∨ (¬ -(v i (j+1) k) < v i j k ∧ ¬ -(v i (j-1) k) < v i j k)) :
+    (advection_flux_y_front_conservative_eno3_stencil_3d inv_dx a f v i j k - a i j k)
+      + (advection_flux_y_back_conservative_eno3_stencil_3d inv_dx a f v i j k - a i j k)
+      = inv_dx * (h * q.deriv (xc h j)) := by
+  have key : ∀ (c : K) n, c * f i n k * v i n k = c * q.eval (xc h n) := by intro c n; rw [mul_assoc, hq]
+  unfold advection_flux_y_front_conservative_eno3_stencil_3d advection_flux_y_back_conservative_eno3_stencil_3d
+  simp only [key]
+  rcases hdir with ⟨h1, h2⟩ | ⟨h1, h2⟩ <;> simp only [h1, h2, if_true, if_false] <;>
+    (simp only [Cubic1.eval, Cubic1.deriv, xc]; push_cast; ring)
+
+theorem C05_eno3_z_3d_cubic_same_dir (a f v : F3 K) (i j k : ℤ)
+    (hq : ∀ n, f n j k * v n j k = q.eval (xc h n))
+    (hdir : (-(v (i+1) j k) < v i j k ∧ -(v (i-1) j k) < v i j k) ∨ (¬ -(v (i+1) j k) < v i j k ∧ ¬ -(v (i-1) j k) < v i j k)) :
+    (advection_flux_z_front_conservative_eno3_stencil_3d inv_dx a f v i j k - a i j k)
+      + (advection_flux_z_back_conservative_eno3_stencil_3d inv_dx a f v i j k - a i j k)
+      = inv_dx * (h * q.deriv (xc h i)) := by
+  have key : ∀ (c : K) n, c * f n j k * v n j k = c * q.eval (xc h n) := by intro c n; rw [mul_assoc, hq]
+  unfold advection_flux_z_front_conservative_eno3_stencil_3d advection_flux_z_back_conservative_eno3_stencil_3d
+  simp only [key]
+  rcases hdir with ⟨h1, h2⟩ | ⟨h1, h2⟩ <;> simp only [h1, h2, if_true, if_false] <;>
+    (simp only [Cubic1.eval, Cubic1.deriv, xc]; push_cast; ring)
+
+theorem C05_eno3_x_3d_quadratic_any_dir (a f v : F3 K) (i j k : ℤ) (hq3 : q.c3 = 0)
+    (hq : ∀ n, f i j n * v i j n = q.eval (xc h n)) :
+    (advection_flux_x_front_conservative_eno3_stencil_3d inv_dx a f v i j k - a i j k)
+      + (advection_flux_x_back_conservative_eno3_stencil_3d inv_dx a f v i j k - a i j k)
+      = inv_dx * (h * q.deriv (xc h k)) := by
+  have key : ∀ (c : K) n, c * f i j n * v i j n = c * q.eval (xc h n) := by intro c n; rw [mul_assoc, hq]
+  unfold advection_flux_x_front_conservative_eno3_stencil_3d advection_flux_x_back_conservative_eno3_stencil_3d
+  simp only [key]
+  split_ifs <;> (simp only [Cubic1.eval, Cubic1.deriv, xc, hq3]; push_cast; ring)
+
+theorem C05_eno3_y_3d_quadratic_any_dir (a f v : F3 K) (i j k : ℤ) (hq3 : q.c3 = 0)
+    (hq : ∀ n, f i n k * v i n k = q.eval (xc h n)) :
+    (advection_flux_y_front_conservative_eno3_stencil_3d inv_dx a f v i j k - a i j k)
+      + (advection_flux_y_back_conservative_eno3_stencil_3d inv_dx a f v i j k - a i j k)
+      = inv_dx * (h * q.deriv (xc h j)) := by
+  have key : ∀ (c : K) n, c * f i n k * v i n k = c * q.eval (xc h n) := by intro c n; rw [mul_assoc, hq]
+  unfold advection_flux_y_front_conservative_eno3_stencil_3d advection_flux_y_back_conservative_eno3_stencil_3d
+  simp only [key]
+  split_ifs <;> (simp only [Cubic1.eval, Cubic1.deriv, xc, hq3]; push_cast; ring)
+
+theorem C05_eno3_z_3d_quadratic_any_dir (a f v : F3 K) (i j k : ℤ) (hq3 : q.c3 = 0)
+    (hq : ∀ n, f n j k * v n j k = q.eval (xc h n)) :
+    (advection_flux_z_front_conservative_eno3_stencil_3d inv_dx a f v i j k - a i j k)
+      + (advection_flux_z_back_conservative_eno3_stencil_3d inv_dx a f v i j k - a i j k)
+      = inv_dx * (h * q.deriv (xc h i)) := by
+  have key : ∀ (c : K) n, c * f n j k * v n j k = c * q.eval (xc h n) := by intro c n; rw [mul_assoc, hq]
+  unfold advection_flux_z_front_conservative_eno3_stencil_3d advection_flux_z_back_conservative_eno3_stencil_3d
+  simp only [key]
+  split_ifs <;> (simp only [Cubic1.eval, Cubic1.deriv, xc, hq3]; push_cast; ring)
+
 end eno
 
 end Sopht.Props.C05
